@@ -12,6 +12,7 @@ from pandera.config import (
     get_config_context,
     get_config_global,
 )
+from pandera.errors import SchemaError, SchemaErrorReason, SchemaErrors
 
 
 def get_lazyframe_schema(lf: pl.LazyFrame) -> Dict[str, pl.DataType]:
@@ -68,3 +69,30 @@ def get_validation_depth(check_obj: PolarsCheckObjects) -> ValidationDepth:
         validation_depth = ValidationDepth.SCHEMA_ONLY
 
     return validation_depth
+
+
+def collect_validated(
+    schema, validated: pl.LazyFrame, lazy: bool
+) -> pl.DataFrame:
+    """Collect the validated query built for a ``pl.DataFrame``.
+
+    Under a schema-only validation depth coercion is a strict cast that polars
+    evaluates only now: a value that cannot be cast is a coercion error of the
+    schema, reported as ``SchemaError`` (``SchemaErrors`` if ``lazy``).
+    """
+    try:
+        return validated.collect()
+    except pl.exceptions.PolarsError as exc:
+        error = SchemaError(
+            schema=schema,
+            data=validated,
+            message=f"Error while collecting the validated dataframe: {exc}",
+            check="coerce_dtype",
+            failure_cases=str(exc).split("\n", maxsplit=1)[0],
+            reason_code=SchemaErrorReason.DATATYPE_COERCION,
+        )
+        if lazy:
+            raise SchemaErrors(
+                schema=schema, schema_errors=[error], data=validated
+            ) from exc
+        raise error from exc
